@@ -22,6 +22,16 @@ Proof.
   destruct d as [d|b]; cbn [enc_targ]; [unfold enc_const; rewrite app_length; destruct (enc_op_nonempty (d_op d)) as (x & l & E); rewrite E|]; cbn [length]; lia.
 Qed.
 
+Lemma enc_pels_len : forall es, (pels_sz es <= length (enc_pels es))%nat /\ (pels_cnt es <= length (enc_pels es))%nat.
+Proof.
+  induction es as [|a r IH|k n es r IHe IH] using pels_ind; [cbn; lia| |]; rewrite pels_sz_cons, pels_cnt_cons, enc_pels_cons, app_length.
+  - cbn [pel_sz pel_cnt enc_pel]. pose proof (len_enc_ta [a]) as Ha. unfold enc_ta in Ha. cbn [flat_map length] in Ha. rewrite app_nil_r in Ha. lia.
+  - rewrite pel_sz_sub, pel_cnt_sub, enc_pel_sub, !app_length. cbn [length].
+    assert (Hk : (1 <= length (enc_pkglen k (k + lenN ([n] ++ enc_pels es))))%nat).
+    { unfold enc_pkglen. destruct (k =? 1); cbn [length]; lia. }
+    lia.
+Qed.
+
 Lemma enc_item_len it : (cfuel_item it <= 3 * length (enc_item it))%nat /\ (isz it <= length (enc_item it))%nat /\ (icnt it <= length (enc_item it))%nat.
 Proof.
   revert it. fix IH 1. intros [d|bk k seg fa body|lk seg fa ta|seg k n elems].
@@ -39,9 +49,9 @@ Proof.
     destruct (enc_op_nonempty (lk_op lk)) as (x0 & l0 & E). rewrite E. cbn [length].
     pose proof (len_enc_fx (lfx lk fa)). pose proof (len_enc_ta ta). lia.
   - rewrite cfuel_pkg, isz_pkg, enc_pkg_item. cbn [icnt length]. rewrite !app_length. cbn [seg_bytes length].
-    assert (Hk : (1 <= length (enc_pkglen k (k + lenN ([n] ++ enc_ta elems))))%nat).
+    assert (Hk : (1 <= length (enc_pkglen k (k + lenN ([n] ++ enc_pels elems))))%nat).
     { unfold enc_pkglen. destruct (k =? 1); cbn [length]; lia. }
-    pose proof (len_enc_ta elems). lia.
+    pose proof (enc_pels_len elems). lia.
 Qed.
 
 Lemma enc_items_len l : (cfuel l <= 3 * length (enc_items l))%nat /\ (iszs l <= length (enc_items l))%nat /\ (icnts l <= length (enc_items l))%nat.
@@ -83,6 +93,16 @@ Proof.
     apply andb_prop in Hd. destruct Hd as [_ B]. apply N.leb_le in B. lia.
 Qed.
 
+Lemma enc_pels_bytes : forall es, forallb pel_okb es = true -> Forall (fun b => b < 256) (enc_pels es).
+Proof.
+  induction es as [|a r IH|k n es r IHe IH] using pels_ind; intros Hok; [constructor| |];
+    cbn [forallb] in Hok; apply andb_prop in Hok; destruct Hok as [Hd Hok]; rewrite enc_pels_cons; (apply Forall_app; split; [|apply IH; exact Hok]).
+  - cbn [pel_okb enc_pel] in *. pose proof (enc_ta_bytes [a]) as Ha. unfold enc_ta in Ha. cbn [flat_map forallb] in Ha. rewrite app_nil_r, andb_true_r in Ha. apply Ha. exact Hd.
+  - rewrite pel_okb_sub in Hd. apply andb_prop in Hd. destruct Hd as [Hx Hes]. apply andb_prop in Hx. destruct Hx as [Hn Hpk]. apply pkglen_okb_adm in Hpk. apply N.ltb_lt in Hn.
+    rewrite enc_pel_sub. apply Forall_app. split; [repeat constructor|]. apply Forall_app. split; [apply enc_pkglen_bytes; exact Hpk|].
+    apply Forall_app. split; [constructor; [exact Hn|constructor]|apply IHe; exact Hes].
+Qed.
+
 Lemma enc_items_bytes : forall l, forallb item_okb l = true -> Forall (fun b => b < 256) (enc_items l).
 Proof.
   induction l as [|d rest IH|bk k seg fa body rest IHb IH|lk seg fa ta rest IH|seg k n elems rest IH] using items_ind; intros Hok; [constructor| | | |].
@@ -104,7 +124,7 @@ Proof.
     apply andb_prop in Hx. destruct Hx as [_ Hn]. apply N.ltb_lt in Hn.
     rewrite enc_items_cons, enc_pkg_item. apply Forall_app. split; [|apply IH; exact Hok].
     constructor; [reflexivity|]. apply Forall_app. split; [apply seg_bytes_lt|]. apply Forall_app. split; [repeat constructor|].
-    apply Forall_app. split; [apply enc_pkglen_bytes; exact Hpk|]. apply Forall_app. split; [constructor; [exact Hn|constructor]|apply enc_ta_bytes; exact Hel].
+    apply Forall_app. split; [apply enc_pkglen_bytes; exact Hpk|]. apply Forall_app. split; [constructor; [exact Hn|constructor]|apply enc_pels_bytes; exact Hel].
 Qed.
 
 (** ---- all slots of the range are nodes of [lay2] ---- *)
@@ -133,7 +153,7 @@ Proof.
       apply leaf_row_nodes. rewrite app_length, len_lhd_pays, len_cst_pays. lia.
     + right. apply IH. rewrite isz_leaf. lia.
   - rewrite lay2_cons, rnodesl_app. rewrite iszs_cons, isz_pkg in Hy. apply in_or_app.
-    destruct (N.ltb_spec y (b + N.of_nat (5 + length elems))) as [Hlt|Hge].
+    destruct (N.ltb_spec y (b + N.of_nat (5 + pels_sz elems))) as [Hlt|Hge].
     + left. cbn [lay2_item]. unfold rnodesl. cbn [flat_map]. rewrite app_nil_r, rnodes_eq.
       destruct (N.eq_dec y b) as [->|Hne]; [left; reflexivity|right].
       unfold rnodesl. cbn [flat_map]. rewrite app_nil_r. apply in_or_app.
@@ -175,6 +195,22 @@ Proof.
   - exists h, tbl. cbn [f1_ok]. do 8 right. left. do 2 eexists. split; reflexivity.
 Qed.
 
+Lemma pel_trees_okP h tbl (P : rose -> Prop) (HP : forall r, f1_ok h tbl r -> P r) :
+  forall es b off, forallb pel_okb es = true -> Forall (rallr P) (pel_trees h tbl b off es).
+Proof.
+  induction es as [|d r IH|k n es r IHe IH] using pels_ind; intros b off Hok; [constructor| |];
+    cbn [forallb] in Hok; apply andb_prop in Hok; destruct Hok as [Hd Hok]; rewrite pel_trees_cons; (constructor; [|apply IH; exact Hok]).
+  - cbn [pel_tree pel_okb] in *. constructor; [|constructor]. apply HP. destruct d as [d|bs]; cbn [targ_okb targ_pay] in *.
+    + unfold cst_okb in Hd. apply andb_prop in Hd. destruct Hd as [Hc _].
+      cbn [f1_ok]. do 6 right. left. do 2 eexists. split; [reflexivity|split; [exact Hc|reflexivity]].
+    + cbn [f1_ok]. do 8 right. left. do 2 eexists. split; reflexivity.
+  - rewrite pel_okb_sub in Hd. apply andb_prop in Hd. destruct Hd as [_ Hes]. rewrite pel_tree_sub.
+    constructor; [apply HP; cbn [f1_ok]; do 10 right; eexists; reflexivity|].
+    constructor; [|constructor; [|constructor]].
+    + constructor; [|constructor]. apply HP. cbn [f1_ok]. right; right; left. do 3 eexists. split; reflexivity.
+    + constructor; [apply HP; cbn [f1_ok]; right; right; right; left; eexists; reflexivity|]. apply IHe. exact Hes.
+Qed.
+
 Lemma lay2_ok h tbl : forall l b off, forallb item_okb l = true -> Forall (rallr f1_okE) (lay2 h tbl b off l).
 Proof.
   induction l as [|d rest IH|bk k seg fa body rest IHb IH|lk seg fa ta rest IH|seg k n elems rest IH] using items_ind; intros b off Hok; [constructor| | | |].
@@ -201,7 +237,7 @@ Proof.
       * constructor; [|constructor]. exists h, tbl. cbn [f1_ok]. right; right; right; right; left. eexists. split; reflexivity.
       * rewrite leaf_row_app. apply Forall_app. split; [apply fx_row_ok|apply cst_row_ok; exact Hta].
   - apply forallb_item_cons in Hok. destruct Hok as [Hd Hok]. cbn [item_okb] in Hd. apply andb_prop in Hd. destruct Hd as [_ Hel].
-    rewrite lay2_cons. apply Forall_app. split; [|apply IH; exact Hok]. cbn [lay2_item pkg_tree]. constructor; [|constructor].
+    rewrite lay2_cons. apply Forall_app. split; [|apply IH; exact Hok]. cbn [lay2_item]. unfold pkg_tree. rewrite pel_tree_sub. constructor; [|constructor].
     constructor.
     + exists h, tbl. cbn [f1_ok]. do 9 right. left. do 5 eexists. split; reflexivity.
     + constructor; [|constructor; [|constructor]].
@@ -209,7 +245,7 @@ Proof.
       * constructor; [exists h, tbl; cbn [f1_ok]; do 10 right; eexists; reflexivity|].
         constructor; [|constructor; [|constructor]].
         -- constructor; [|constructor]. exists h, tbl. cbn [f1_ok]. right; right; left. do 3 eexists. split; reflexivity.
-        -- constructor; [exists h, tbl; cbn [f1_ok]; right; right; right; left; eexists; reflexivity|]. apply cst_row_ok. exact Hel.
+        -- constructor; [exists h, tbl; cbn [f1_ok]; right; right; right; left; eexists; reflexivity|]. apply (pel_trees_okP h tbl f1_okE (fun r Hr => ex_intro _ h (ex_intro _ tbl Hr))). exact Hel.
 Qed.
 
 Lemma fx_row_okh h tbl : forall l b off, Forall (rallr (f1_ok h tbl)) (leaf_row b (fx_pays h off l)).
@@ -262,7 +298,7 @@ Proof.
       * constructor; [cbn [f1_ok]; do 10 right; eexists; reflexivity|].
         constructor; [|constructor; [|constructor]].
         -- constructor; [|constructor]. cbn [f1_ok]. right; right; left. do 3 eexists. split; reflexivity.
-        -- constructor; [cbn [f1_ok]; right; right; right; left; eexists; reflexivity|]. apply cst_row_okh. exact Hel.
+        -- constructor; [cbn [f1_ok]; right; right; right; left; eexists; reflexivity|]. apply (pel_trees_okP h tbl (f1_ok h tbl) (fun r Hr => Hr)). exact Hel.
 Qed.
 
 
